@@ -206,6 +206,7 @@ func (l *srcLog) show(name string) string {
 type registry struct {
 	static  []*srcLog
 	dynamic []*srcLog
+	taps    []*tapS // one in front of every stream.WithPeek / stream.Runs of the case, in build order
 }
 
 func (r *registry) show() string {
@@ -450,6 +451,34 @@ func (c *convI[T, U]) Next() (U, bool) {
 	return c.f(x), true
 }
 
+// tapS: a transparent recorder written here (no library code) that sits between a pipeline and the
+// stream.WithPeek / stream.Runs under test. It forwards Next and Close unchanged and remembers what the
+// inner stream *delivered* (the items of successful calls, whether the end was reported). The C07
+// monitors of WithPeek and Runs judge "yields exactly the items of its source" against this log, so the
+// clause needs no assumption about what failed calls (expired context, transient failure) cost.
+type tapS struct {
+	inner stream.Stream[any]
+	got   []any
+	ended bool
+}
+
+func (t *tapS) Next(ctx context.Context) (any, error) {
+	x, err := t.inner.Next(ctx)
+	if err == nil {
+		t.got = append(t.got, x)
+	} else if err == stream.End {
+		t.ended = true
+	}
+	return x, err
+}
+func (t *tapS) Close() { t.inner.Close() }
+
+func newTap(reg *registry, p stream.Stream[any]) *tapS {
+	t := &tapS{inner: p}
+	reg.taps = append(reg.taps, t)
+	return t
+}
+
 // runsProtoS: outer Next; read the inner stream to its end (take < 0) or take items; close a fully
 // read inner stream if closeInner; advance the outer stream.
 type runsProtoS struct {
@@ -528,7 +557,7 @@ func stageS(reg *registry, p stream.Stream[any], tok string) (stream.Stream[any]
 	switch k {
 	case "peek":
 		api("stream.WithPeek")
-		return stream.WithPeek(p), true
+		return stream.WithPeek[any](newTap(reg, p)), true
 	case "chunk":
 		api("stream.Chunk")
 		return &convS[[]any, any]{stream.Chunk(p, atoi(arg)), func(x []any) any { return x }}, true
@@ -572,7 +601,7 @@ func stageS(reg *registry, p stream.Stream[any], tok string) (stream.Stream[any]
 			return nil, false
 		}
 		api("stream.Runs")
-		return &runsProtoS{outer: stream.Runs(p, relOf(f[0])), take: optTake(f[1]), closeInner: f[2] == "1"}, true
+		return &runsProtoS{outer: stream.Runs[any](newTap(reg, p), relOf(f[0])), take: optTake(f[1]), closeInner: f[2] == "1"}, true
 	}
 	return nil, false
 }
@@ -799,6 +828,20 @@ type implState struct {
 	innS  map[int]stream.Stream[any]
 	innI  map[int]iterator.Iterator[any]
 	gen   int
+	tapAt []tapMark // after every executed line: what the last tap of the case had delivered by then
+}
+
+type tapMark struct {
+	n     int
+	ended bool
+}
+
+// lastTap: the recorder in front of the WithPeek / Runs built last (nil: the case has none).
+func (st *implState) lastTap() *tapS {
+	if n := len(st.reg.taps); n > 0 {
+		return st.reg.taps[n-1]
+	}
+	return nil
 }
 
 func showNextS(x any, err error) string {
@@ -827,6 +870,11 @@ func (st *implState) exec(line string) (out string) {
 	budgetOn = true
 	p, _ := vlib.Try(func() { out = st.exec1(f, logs) })
 	budgetOn = false
+	m := tapMark{}
+	if t := st.lastTap(); t != nil {
+		m = tapMark{len(t.got), t.ended}
+	}
+	st.tapAt = append(st.tapAt, m)
 	if p {
 		return "panic" + logs()
 	}
@@ -882,7 +930,7 @@ func (st *implState) exec1(f []string, logs func() string) string {
 			return "bad-pipeline"
 		}
 		api("stream.WithPeek")
-		st.peekS = stream.WithPeek(p)
+		st.peekS = stream.WithPeek[any](newTap(&st.reg, p))
 		return "ok"
 	case "itpk":
 		p, ok := buildI(&st.reg, f[1:])
@@ -901,7 +949,7 @@ func (st *implState) exec1(f []string, logs func() string) string {
 			return "bad-pipeline"
 		}
 		api("stream.Runs")
-		st.runsS = stream.Runs(p, relOf(f[1]))
+		st.runsS = stream.Runs[any](newTap(&st.reg, p), relOf(f[1]))
 		st.innS = map[int]stream.Stream[any]{}
 		return "ok"
 	case "itrp":
